@@ -448,6 +448,10 @@ class GPTNeoXKFACPreconditioner(BaseKFACPreconditioner):
                 logger.info(f'saving KFAC factors for {name} to {filepath}')
                 torch.save(layer_state_dict, filepath)
 
+        # The checkpoint is complete only once every inverse worker has
+        # written its layers: do not return (or let a load start) earlier.
+        torch.distributed.barrier()
+
 
 def register_modules(
     model: torch.nn.Module,
